@@ -28,7 +28,10 @@ type SConn struct {
 	// the default.  nil = every size max, 1, 2, ... max-1.
 	Menu       func(max int) []int
 	TimeoutAlt bool // when a deadline is armed, "nothing arrives before the deadline" is an alternative
-	StallAfter int  // if >0: after this many bytes have been delivered the client goes silent... (-1 unused)
+	// EOFWithData: the read that delivers the client's last bytes may return them together
+	// with io.EOF (io.Reader allows it; crypto/tls does it when close_notify follows the data)
+	EOFWithData bool
+	StallAfter  int // if >0: after this many bytes have been delivered the client goes silent... (-1 unused)
 
 	Deadline       time.Time
 	DeadlineSets   int
@@ -101,6 +104,10 @@ func (c *SConn) Read(p []byte) (int, error) {
 	copy(p, c.Data[c.Pos:c.Pos+n])
 	c.Pos += n
 	c.ReadLog = append(c.ReadLog, n)
+	if c.EOFWithData && c.FIN && c.Pos == len(c.Data) && c.X != nil && c.X.Choose(explore.KRead, 2) == 1 {
+		c.ReadLog = append(c.ReadLog, 0)
+		return n, io.EOF
+	}
 	return n, nil
 }
 
